@@ -314,6 +314,28 @@ Non-trivial: payload ≥ 12 bytes; distinct = distinct query lines."
             if r.is_err() { w.fail(l, "decode-panic", "Delta deserialize panicked"); }
         }
         w.count("files");
+        // files the CLI writes are NOT protocol payloads: a signature / delta above the 16 MiB payload bound must read back
+        // (encode → file → decode through `copia delta` / `copia patch`), the round trip has no size cliff
+        if i == 0 {
+            if let Some(c) = cli.as_ref() {
+                let f = |n: &str| c.dir.join(n).to_string_lossy().into_owned();
+                let big = rng.bytes((17 << 20) + 123);
+                std::fs::write(f("basis"), b"").ok();
+                std::fs::write(f("src"), &big).ok();
+                let (c1, _) = c.run(&["signature", &f("basis"), "-o", &f("sig"), "-b", "2048"]);
+                let (c2, e2) = c.run(&["delta", &f("src"), &f("sig"), "-o", &f("delta")]);
+                let (c3, e3) = c.run(&["patch", &f("basis"), &f("delta"), "-o", &f("out")]);
+                w.count("cli-large-delta-file");
+                let dl = std::fs::metadata(f("delta")).map(|m| m.len()).unwrap_or(0);
+                if c1 != Some(0) || c2 != Some(0) || c3 != Some(0) {
+                    w.fail(0, "cli-large-file-rejected", &format!("a {dl}-byte delta file written by `copia delta` did not read back: signature/delta/patch exit {c1:?}/{c2:?}/{c3:?} {e2} {e3}"));
+                } else if std::fs::read(f("out")).ok().as_deref() != Some(&big[..]) {
+                    w.fail(0, "cli-large-file-roundtrip", "a 17 MiB source did not survive signature -> delta -> patch through files");
+                }
+                // and a signature with > 16 MiB of block entries (a basis of ~ 420 000 blocks of 512 bytes is 215 MB: too big here) is left to thorough
+                for n in ["basis", "src", "sig", "delta", "out"] { let _ = std::fs::remove_file(f(n)); }
+            }
+        }
         // CLI front ends: every single-field corruption of a VALID file (block size 0 / not a power of two / absurd counts)
         if let Some(c) = cli.as_ref() {
             if i % (if thorough { 12 } else { 10 }) == 0 {
